@@ -18,6 +18,9 @@ Prim(p) == [k |-> "prim", p |-> p]
 Ptr(t) == [k |-> "ptr", e |-> t]
 Slice(t) == [k |-> "slice", e |-> t]
 Struct(fs) == [k |-> "struct", f |-> fs]
+\* a struct type DECLARED under a name (Go: type Item struct{...} inside a function): what is filled depends on the type - its
+\* fields and tags - never on the name, which several declared types may share
+Declared(n, fs) == [k |-> "struct", f |-> fs, n |-> n]
 Field(tag, t) == [tag |-> tag, exported |-> TRUE, emb |-> FALSE, t |-> t]
 Untagged(t) == [tag |-> [op |-> "none"], exported |-> TRUE, emb |-> FALSE, t |-> t]
 Hidden(tag, t) == [tag |-> tag, exported |-> FALSE, emb |-> FALSE, t |-> t]
